@@ -102,7 +102,7 @@ def audit(prop: str, timeout: int = 900) -> dict:
 
 # ------------------------------------------------------------- generated model (translator) gate
 # properties whose theorem files contain `..._code_...` theorems about BBGen (the translation of the Python sources)
-GEN_PROPS = {"C01", "C02", "C03", "C04", "C05", "C08", "C10", "C11", "C12", "C15", "C17"}
+GEN_PROPS = {"C01", "C02", "C03", "C04", "C05", "C07", "C08", "C10", "C11", "C12", "C15", "C17"}
 
 
 def _lean_env() -> dict:
@@ -153,7 +153,18 @@ def gen_gate(prop: str, timeout: int = 1500) -> dict:
         # Lean resolves a module in the first search-path entry that has its top-level directory, so the scratch copies of
         # the proof files live under another package name (BBScratch) with their mutual imports rewritten; BBGen (one module)
         # is shadowed as a whole, everything else comes from the built project
-        chain_mods = ["GenEq", "GenEq2", "GenEq3", "GenEq4", "GenEq5", "GenEq6"]
+        all_mods = ["GenEq", "GenEq2", "GenEq3", "GenEq4", "GenEq5", "GenEq6"]
+        # only the equality files the property file (transitively) imports: a break in the theorems about one translated
+        # function does not raise an alarm for properties that do not rest on it
+        imp_of = {m: set(re.findall(r"^import BBProofs\.(GenEq\d?)\s*$", (LEAN / "BBProofs" / f"{m}.lean").read_text(), flags=re.M))
+                  for m in all_mods if (LEAN / "BBProofs" / f"{m}.lean").exists()}
+        need, stack = set(), list(re.findall(r"^import BBProofs\.(GenEq\d?)\s*$", (LEAN / "BBProps" / f"{prop}.lean").read_text(), flags=re.M))
+        while stack:
+            m_ = stack.pop()
+            if m_ not in need:
+                need.add(m_)
+                stack += list(imp_of.get(m_, ()))
+        chain_mods = [m for m in all_mods if m in need]
 
         def rewritten(txt: str) -> str:
             for mname in chain_mods:
